@@ -98,6 +98,22 @@ Theorem T20_expansion_any_document : forall fs uri top pre ns nm a k post,
 Proof. exact docproc_expansion_gen. Qed.
 Print Assumptions T20_expansion_any_document.
 
+(** the Document child rule (DOMDocumentImpl::isKidOK / insertBefore: comments, white-space-only text, at most one
+    element): merging a legal replacement list at the position of the document element keeps it, and whenever the
+    processing hands back a document at all, its child list obeys it -- whatever replaced the document element *)
+Theorem T20_merge_at_document_element : forall pre nodes post,
+  count_elem_nodes pre = O -> count_elem_nodes post = O -> has_text_node pre = false -> has_text_node post = false ->
+  doc_kids_ok nodes = true -> doc_kids_ok (pre ++ nodes ++ post) = true.
+Proof. exact merge_at_document_element. Qed.
+Print Assumptions T20_merge_at_document_element.
+
+Theorem T20_document_children_ok : forall fs fixb fixn fixc uri top pre ns nm a k post r e,
+  split_root [] top = Some (pre, Elem ns nm a k, post) ->
+  has_text_node top = false -> (count_elem_nodes top <= 1)%nat ->
+  xi_docproc fs fixb fixn fixc uri top = (D_ok r, e) -> doc_kids_ok r = true.
+Proof. exact docproc_children_ok. Qed.
+Print Assumptions T20_document_children_ok.
+
 (** the Spec itself terminates with the same fuel *)
 Theorem T20_spec_terminates : forall fs uri top, clean_fs fs = true -> forallb clean_node top = true ->
   xi_spec_doc fs (enough_fuel fs top) uri top <> inl XE_Fuel.
